@@ -6,7 +6,7 @@
                                             tools/consts/C11.py reports a problem when that stops being true)
      size  = mem_.size()  (end_ - beg_),  alloc = the number of bytes handed to realloc (size <= alloc)
    and the header `struct RuleBuilder::Rule` that lives in the first RB_HDR bytes of the block as record fields
-     top, fix, head = (mbeg, mend, type), body = (mbeg, mend, type)
+     top, frz (= fix), head = (mbeg, mend, type), body = (mbeg, mend, type)
    (exactly the fields of the struct; RB_HDR = sizeof(Rule) is computed by the translator from the bit-field widths).
    MemoryRegion::grow is modelled as realloc: a fresh block (content JUNK) that receives the first min(old alloc, new alloc)
    bytes of the old one.  POTASSCO_ASSERT is `Err E_ASSERT`.  A store outside [RB_HDR, size) sets `fault` (never happens
@@ -225,9 +225,9 @@ Definition setb {A} (t : tri A) (i : Z) (c : A) : tri A :=
 
 Inductive mop :=
 | MOp (i : Z) (o : op) | MQuery (i : Z) (full : bool)
-| MCopy (i j : Z)      (* b[j] = new RuleBuilder(*b[i]) *)
-| MAssign (i j : Z)    (* *b[j] = *b[i]  ==  RuleBuilder(*b[i]).swap(*b[j]) *)
-| MSwap (i j : Z).     (* b[i]->swap(*b[j]) *)
+| MCopy (i j : Z)      (* b[j] = new copy of b[i] *)
+| MAssign (i j : Z)    (* b[j] assigned from b[i]: copy and swap *)
+| MSwap (i j : Z).     (* swap of b[i] and b[j] *)
 
 Fixpoint run_mops (t : tri cst) (ops : list mop) : list Z :=
   match ops with
